@@ -1363,6 +1363,76 @@ def _pat_paths(p, prefix=()):
     return out
 
 
+PASS_PREFIXES = ["sylt_compiler::typechecker::TypeChecker::", "sylt_compiler::name_resolution::Resolver::",
+                 "sylt_compiler::intermediate::IRCodeGen::", "sylt_compiler::dependency::"]
+
+
+def _visiting_functions(F):
+    visiting = set()
+    for pre in PASS_PREFIXES:
+        for fn in F.fns_in(pre):
+            if any(any(t in prm["ty"] for t in VISITOR_ARG_TYPES) for prm in fn["params"]):
+                visiting.add(fn["_path"])
+    graph = {}
+    for p_ in visiting:
+        graph[p_] = {callee(c) for c in nodes(fn_body(F.fns[p_])) if c.get("k") in ("MethodCall", "Call") and callee(c) in visiting}
+
+    def reach(a):
+        seen_, todo = set(), list(graph[a])
+        while todo:
+            q = todo.pop()
+            if q not in seen_:
+                seen_.add(q)
+                todo += list(graph[q])
+        return seen_
+    reachable = {p_: reach(p_) for p_ in visiting}
+    cyclic = {p_ for p_ in visiting if p_ in reachable[p_]}
+    return {p_ for p_ in visiting if p_ in cyclic or reachable[p_] & cyclic}
+
+
+def visit_loops_complete(F, rep, rule="VISIT-ALL"):
+    """a loop that hands each element of a list of syntax nodes to a visiting function visits all of them: it is not left
+    early (`break`, a `return` that is not an error) and no element is passed over before its visit (`continue`).  What is
+    not visited is not resolved / not checked / not lowered: `ret 1` followed by a use of an undeclared name is accepted when
+    the resolver stops at the `ret`."""
+    from tc import is_err_value
+    visiting = _visiting_functions(F)
+    n = 0
+    for pre in PASS_PREFIXES:
+        for fn in F.fns_in(pre):
+            body = fn_body(fn)
+            k_ = 0
+            for lp in nodes(body, "ForLoop"):
+                lv = {b["hid"] for b in pat_bindings(lp["pat"])}
+                visits = [c for c in nodes(lp["body"]) if c.get("k") in ("MethodCall", "Call") and callee(c) in visiting and
+                          any(x.get("hid") in lv for a in c["args"] for x in nodes(a, "Path"))]
+                if not visits:
+                    continue
+                n += 1
+                k_ += 1
+                order = [id(x) for x in nodes(lp["body"])]
+                first_visit = min(order.index(id(v)) for v in visits)
+                inner = [y for y in nodes(lp["body"]) if y.get("k") in ("ForLoop", "While", "Loop", "Closure")]
+                bad = []
+                for x in nodes(lp["body"]):
+                    if any(x is z for y in inner for z in nodes(y) if z is not y):
+                        continue
+                    if x.get("k") == "Break":
+                        bad.append(("break", x))
+                    elif x.get("k") == "Continue" and order.index(id(x)) < first_visit:
+                        bad.append(("continue before the visit", x))
+                    elif x.get("k") == "Ret" and x.get("e") is not None and not is_err_value(x["e"]) and \
+                            not (callee(peel(x["e"])) or "").endswith("Result::Err"):
+                        bad.append(("return", x))
+                rep.ob(rule, "%s|loop#%d" % (last(fn["_path"], 2), k_), not bad,
+                       "every element reaches %s" % last(callee(visits[0])) if not bad else
+                       "the loop in %s that hands each element to %s can leave elements out (`%s`, line %s): what is not visited is "
+                       "not resolved, checked or lowered - code after a `ret` with an undeclared name in it is accepted" % (
+                           last(fn["_path"], 2), last(callee(visits[0])), bad[0][0], (line_of(bad[0][1]) or "?").split(":")[-2]),
+                       line_of(bad[0][1]) if bad else line_of(lp))
+    rep.floor(rule, "loops over lists of syntax nodes", n, 10)
+
+
 def single_visit(F, rep, rule="RE-CHECK"):
     """A pass that visits a child twice on one path does the whole work below that child twice - and the child can contain
     the construct that is being visited (a block whose last statement is an `if` whose block ends in an `if` ..), so every
